@@ -73,6 +73,16 @@ def draw_case_scenario(seed, tier, force=None):
     )
     if scn["flow"]["kind"] == "native":
         scn["bounded_to_unbounded"] = False
+    if rng.uniform() < 0.15 and t.factor[0] != "vm":
+        scn["target"]["like_cut"] = [0, float(t.lower[0] + (t.upper[0] - t.lower[0]) * rng.uniform(0.3, 0.5))]
+    if sk.get("adaptive", True) and rng.uniform() < 0.2 and "n_steps" not in force:
+        # beta_tolerance is a schedule option of SMCSampler.sample only: drive the base-class method, with tolerances
+        # from the default to coarse ones whose multiples miss 1.0 in floating point, and demanding ESS targets
+        scn["api"] = "base_smc"
+        sk["beta_tolerance"] = float(pick(rng, [1e-6, 1e-4, 1e-2, 0.1, 0.15, 0.3, 0.4]))
+        if not isinstance(sk.get("target_efficiency"), list):
+            sk["target_efficiency"] = float(pick(rng, [0.5, 0.9, 0.99]))
+        extra = extra + "+tol"
     scn["_schedule_mode"] = mode + ("+" + extra if extra != "none" else "")
     return scn
 
